@@ -62,13 +62,56 @@ def nodeFields (ls : List Link) (d : Option Bytes) : List Field :=
 
 def encodePB (ls : List Link) (d : Option Bytes) : Bytes := encodeMsg (nodeFields ls d)
 
+/-- go-varint `FromUvarint`: at most 9 bytes (63 bits), minimal encoding required -/
+def uvarAux : Nat → Nat → Bytes → Option (Nat × Bytes)
+  | 0, _, _ => none
+  | _ + 1, _, [] => none
+  | k + 1, i, b :: r =>
+    if b.toNat < 128 then (if b.toNat = 0 ∧ i > 0 then none else some (b.toNat, r))
+    else match uvarAux k (i + 1) r with
+      | none => none
+      | some (v, r') => some (b.toNat - 128 + 128 * v, r')
+
+def uvarint63 (b : Bytes) : Option (Nat × Bytes) := uvarAux 9 0 b
+
+/-- go-cid `CidFromBytes`: the CID at the front of the bytes (trailing bytes are ignored, as the dag-pb
+decoder does: `_, c, err := cid.CidFromBytes(chunk)`). CIDv0 = a bare sha2-256 multihash (0x12 0x20 + 32
+bytes) when more than two bytes are present; otherwise version varint = 1, codec varint, multihash
+(code varint, length varint ≤ 2^31−1, that many digest bytes). `cidLen` is the number of bytes the CID
+occupies. -/
+def cidLen (b : Bytes) : Option Nat :=
+  match b with
+  | 0x12 :: 0x20 :: _ :: _ => if b.length < 34 then none else some 34
+  | _ =>
+    match uvarint63 b with
+    | none => none
+    | some (vers, r1) =>
+      if vers ≠ 1 then none
+      else match uvarint63 r1 with
+        | none => none
+        | some (_, r2) =>
+          if r2.length < 2 then none
+          else match uvarint63 r2 with
+            | none => none
+            | some (_, r3) =>
+              match uvarint63 r3 with
+              | none => none
+              | some (len, r4) =>
+                if len > 2 ^ 31 - 1 ∨ len > r4.length then none
+                else some (b.length - r4.length + len)
+
+def parseCid (b : Bytes) : Option Bytes := (cidLen b).map b.take
+
 /-- `unmarshalLink`: Hash, Name, Tsize at most once each and in this order, Hash required; wire types
-2, 2, 0; any other field number is an error. The three booleans are haveHash / haveName / haveTsize.
-(The CID syntax check of go-cid is not modelled: a non-empty Hash is accepted as it is.) -/
+2, 2, 0; any other field number is an error; the Hash must start with a well-formed CID (`parseCid`),
+which is what the link gets. The three options are haveHash / haveName / haveTsize. -/
 def linkFromFields : List Field → Option Bytes → Option Bytes → Option Nat → Option Link
   | [], some h, n, t => some ⟨n.getD [], h, t.getD 0⟩
   | [], none, _, _ => none
-  | ⟨1, .bytes h⟩ :: fs, none, none, none => if h.isEmpty then none else linkFromFields fs (some h) none none
+  | ⟨1, .bytes h⟩ :: fs, none, none, none =>
+    match parseCid h with
+    | none => none
+    | some c => linkFromFields fs (some c) none none
   | ⟨2, .bytes n⟩ :: fs, h, none, none => linkFromFields fs h (some n) none
   | ⟨3, .varint t⟩ :: fs, h, n, none => linkFromFields fs h n (some t)
   | _ :: _, _, _, _ => none
@@ -229,6 +272,55 @@ def fromBytes (b : Bytes) : Option (Node B C) :=
 /-- `DecodeProtobuf(n.RawData())`; the old node is dropped. `none` = decode error -/
 def reload (P : Params B C) (n : Node B C) : Option (Node B C) := fromBytes (rawData P n).2
 
+/-- `Tree("", _)`: sorts if dirty (as `Links()`), returns the names -/
+def tree (n : Node B C) : Node B C × List Bytes :=
+  let n' := cleanLinks n
+  (n', n'.links.map (·.name))
+
+/-- `MarshalJSON`: sorts if dirty (as `Links()`), then the `{"data", "links"}` object -/
+def marshalJSON (n : Node B C) : Node B C × (Option Bytes × List Link) :=
+  let n' := cleanLinks n
+  (n', (n'.data, n'.links))
+
+/-- `UnmarshalJSON` of a well-formed `{"data", "links"}` object: the links are validated, then data and
+links are replaced and the cached encoding dropped; `linksDirty` and `cached` are left alone (the list is
+kept "as serialized"). A link that fails `checkLink` leaves the node untouched. -/
+def unmarshalJSON (n : Node B C) (d : Option Bytes) (ls : List Link) : Node B C × Bool :=
+  if !ls.all checkLink then (n, false)
+  else ({ n with data := d, links := ls, encoded := none }, true)
+
+/-- the code before the fix: data and links were assigned BEFORE the links were validated, and the
+cached encoding was only dropped on success -/
+def unmarshalJSONUnfixed (n : Node B C) (d : Option Bytes) (ls : List Link) : Node B C × Bool :=
+  let n1 := { n with data := d, links := ls }
+  if !ls.all checkLink then (n1, false) else ({ n1 with encoded := none }, true)
+
+/-- `GetPBNode()`: a sorted copy of the links and the data when non-empty; the node is not touched -/
+def getPBNode (n : Node B C) : List Link × Option Bytes :=
+  (sortLinks n.links, match n.data with
+    | some d => if d.length > 0 then some d else none
+    | none => none)
+
+/-- `Stat()`: (NumLinks, BlockSize, LinksSize, DataSize, CumulativeSize) and the CID -/
+def stat (P : Params B C) (n : Node B C) : Node B C × (Nat × Nat × Int × Nat × Nat) × Option C :=
+  let r := encodeProtobuf P n false
+  let r2 := size P r.1
+  let r3 := cid P r2.1
+  let dl := (n.data.getD []).length
+  (r3.1, (r.1.links.length, r.2.length, (r.2.length : Int) - dl, dl, r2.2), r3.2)
+
+/-- `UpdateNodeLink(name, that)`: a copy with the links of that name replaced by one to `that`
+(cid and size are those of `that`); the receiver is not touched -/
+def updateNodeLink (n : Node B C) (l : Link) : Node B C × Bool :=
+  addLink (removeLink (copy n) l.name).1 l
+
+/-- `DecodeProtobufBlock(block)`: as `DecodeProtobuf`, then the block's CID is trusted as the cached CID
+and its prefix becomes the builder -/
+def fromBlock (b : Bytes) (c : C) (pre : B) : Option (Node B C) :=
+  match decodePB b with
+  | none => none
+  | some (ls, d) => some { links := ls, data := d, encoded := some b, cached := some c, builder := some pre }
+
 /-! ### operations of the line protocol -/
 
 inductive Op (B : Type) where
@@ -246,6 +338,13 @@ inductive Op (B : Type) where
   | rawData
   | size
   | cid
+  | tree
+  | marshalJSON
+  | unmarshalJSON (d : Option Bytes) (ls : List Link)
+  | getPBNode
+  | stat
+  | updateNodeLink (l : Link)
+  | reloadBlock
 
 inductive Out (C : Type) where
   | ok
@@ -257,6 +356,10 @@ inductive Out (C : Type) where
   | bytes (b : Bytes)
   | nat (n : Nat)
   | cid (c : Option C)
+  | names (ns : List Bytes)
+  | json (d : Option Bytes) (ls : List Link)
+  | pbnode (ls : List Link) (d : Option Bytes)
+  | stat (v : Nat × Nat × Int × Nat × Nat) (c : Option C)
 
 def step (P : Params B C) (n : Node B C) : Op B → Node B C × Out C
   | .addLink l => let r := addLink n l; (r.1, if r.2 then .ok else .err)
@@ -275,6 +378,21 @@ def step (P : Params B C) (n : Node B C) : Op B → Node B C × Out C
   | .rawData => let r := rawData P n; (r.1, .bytes r.2)
   | .size => let r := size P n; (r.1, .nat r.2)
   | .cid => let r := cid P n; (r.1, .cid r.2)
+  | .tree => let r := tree n; (r.1, .names r.2)
+  | .marshalJSON => let r := marshalJSON n; (r.1, .json r.2.1 r.2.2)
+  | .unmarshalJSON d ls => let r := unmarshalJSON n d ls; (r.1, if r.2 then .ok else .err)
+  | .getPBNode => let r := getPBNode n; (n, .pbnode r.1 r.2)
+  | .stat => let r := stat P n; (r.1, .stat r.2.1 r.2.2)
+  | .updateNodeLink l => let r := updateNodeLink n l; (r.1, if r.2 then .ok else .err)
+  | .reloadBlock =>
+    -- DecodeProtobufBlock(NewBlockWithCid(n.RawData(), n.Cid())); the prefix of a CID made by a builder
+    -- sums like that builder
+    let r := cid P n
+    match r.2, r.1.encoded with
+    | some c, some e => match fromBlock e c (r.1.builder.getD P.v0) with
+      | some m => (m, .ok)
+      | none => (r.1, .err)
+    | _, _ => (r.1, .err)
 
 def run (P : Params B C) (n : Node B C) : List (Op B) → Node B C
   | [] => n
